@@ -16,13 +16,13 @@ func init() {
 // written from the constructors New()/&Parser{}; a field without an entry must be the zero value.
 // "any" = holder-independent configuration object whose identity cannot be compared (explained in evidence).
 var freshTokenizer = map[string]string{
-	"pos.Line":        "1",
-	"pos.Column":      "1",
-	"lineStarts#len":  "1",
-	"lineStarts#ptr":  "any", // checked through lineStarts[0] == 0 below
-	"lineStarts#cap":  "any",
-	"keywords":        "any", // rebuilt by PutTokenizer whenever the dialect is not the default; tied to `dialect`
-	"dialect":         "str:postgresql",
+	"pos.Line":       "1",
+	"pos.Column":     "1",
+	"lineStarts#len": "1",
+	"lineStarts#ptr": "any", // checked through lineStarts[0] == 0 below
+	"lineStarts#cap": "any",
+	"keywords":       "any", // rebuilt by PutTokenizer whenever the dialect is not the default; tied to `dialect`
+	"dialect":        "str:postgresql",
 }
 
 // poolPutSchema: at the call pool.Put(x) inside fn, every field of *x equals its fresh value.
@@ -172,7 +172,7 @@ func runC08(e *Engine, tier Tier) *PropRun {
 	return &PropRun{
 		Results: rs, FUC: fucList(rs),
 		Explanation: "Three families of obligations. (1) Schema fresh(T.f), instantiated from go/types for every field of parser.Parser and tokenizer.Tokenizer: at the pool.Put call of PutParser/PutTokenizer every field equals its value in a newly constructed instance (zero unless the constructor says otherwise), so a field added later gets an obligation automatically. (2) Per-call state is assigned before it is read: the entry points' loop invariants state that tokens/positions/cursor hold this call's values when the statement loop starts (positions == nil for position-less parses). (3) Restoration on every path: every (*Parser) method proves depth == old(depth) (deferred decrement modelled), cursor monotone, tokens/positions/strict/dialect untouched; entry points prove ctx cleared, depth and configuration unchanged on every exit. Loop invariants are inferred Houdini-style from the contract clauses and then checked like written ones.",
-		NotCovered: []string{"equality of the keyword table object with a freshly built one (pointer identity is not comparable; tied to the dialect field by PutTokenizer's branch)", "Tokenizer.Tokenize assign-before-read (covered by the C04/C05 contracts when claimed)", "gosqlx wrappers that reuse one parser across a batch rely on these contracts (no separate obligation)"},
+		NotCovered:  []string{"equality of the keyword table object with a freshly built one (pointer identity is not comparable; tied to the dialect field by PutTokenizer's branch)", "Tokenizer.Tokenize assign-before-read (covered by the C04/C05 contracts when claimed)", "gosqlx wrappers that reuse one parser across a batch rely on these contracts (no separate obligation)"},
 		Assumptions: []string{"sync.Pool hands out only values that were Put or created by New"},
 	}
 }
